@@ -73,7 +73,9 @@ var tagChoices = []tagChoice{
 }
 
 var fieldNames = []string{"Code", "Status2", "detail", "aField", "Z9", "Ünï", "b", "B", "Ab", "aB", "Message2",
-	"name_x", "X1", "x1", "Zz", "zz", "Äb", "Timeout"}
+	"name_x", "X1", "x1", "Zz", "zz", "Äb", "Timeout",
+	// names of GError's own exported fields: an extension field of that name shadows the promoted one
+	"Name", "Source", "Message"}
 
 type field struct {
 	Name    string   `json:"name"`
@@ -120,6 +122,29 @@ func orderStruct(kinds ...string) []field {
 			out = append(out, f(names[i], "int", strconv.Itoa(10+i), `gerror:"_,print"`, true, "_", "print"))
 		default:
 			out = append(out, f(names[i], "Status", "Status(3)", `gerror:"_,print,clone"`, true, "_", "print", "clone"))
+		}
+	}
+	return out
+}
+
+// shadowStruct: string fields named Name, Source, Message (the exported fields of GError) whose
+// tag kinds are rotated by k over none / print / clone / print+clone / renamed print+clone.
+func shadowStruct(k int) []field {
+	names := []string{"Name", "Source", "Message"}
+	var out []field
+	for i, n := range names {
+		val := strconv.Quote("field-" + strings.ToLower(n))
+		switch (k + i) % 5 {
+		case 0:
+			out = append(out, f(n, "string", val, "", false, ""))
+		case 1:
+			out = append(out, f(n, "string", val, `gerror:"_,print"`, true, "_", "print"))
+		case 2:
+			out = append(out, f(n, "string", val, `gerror:"_,clone"`, true, "_", "clone"))
+		case 3:
+			out = append(out, f(n, "string", val, `gerror:"_,print,clone"`, true, "_", "print", "clone"))
+		default:
+			out = append(out, f(n, "string", val, `gerror:"origin,print,clone"`, true, "origin", "print", "clone"))
 		}
 	}
 	return out
@@ -173,6 +198,28 @@ func fixedTypes() []typ {
 			f("Bare", "string", `"b"`, `gerror:"-"`, true, "-"),
 			f("Spaced", "int", "7", `gerror:"two words,print,clone"`, true, "two words", "print", "clone"),
 			f("Pct", "string", `"v"`, `gerror:"100%,clone,print"`, true, "100%", "clone", "print")}},
+		// extension fields named like GError's own exported fields (Name, Source, Message): the
+		// struct's field shadows the promoted one; accessors and the base part of Error() must keep
+		// reading the embedded GError.  H1-H5: the three names as string fields in every pairing with
+		// the five tag kinds (none, print, clone, print+clone, renamed print+clone), a Latin square;
+		// H6/H7: the same names with non-string types; H8: empty string values.
+		{Name: "H1", Fields: shadowStruct(0)},
+		{Name: "H2", Skip: true, Fields: shadowStruct(1)},
+		{Name: "H3", Fields: shadowStruct(2)},
+		{Name: "H4", Fields: shadowStruct(3)},
+		{Name: "H5", Skip: true, Fields: shadowStruct(4)},
+		{Name: "H6", Fields: []field{
+			f("Name", "int", "42", `gerror:"_,print,clone"`, true, "_", "print", "clone"),
+			f("Source", "[]string", `[]string{"a", "b"}`, `gerror:"_,clone"`, true, "_", "clone"),
+			f("Message", "map[string]int", `map[string]int{"k": 1, "a": 2}`, "", false, "")}},
+		{Name: "H7", Skip: true, Fields: []field{
+			f("Message", "Status", "Status(3)", `gerror:"msg,print"`, true, "msg", "print"),
+			f("Source", "error", `errors.New("inner")`, `gerror:"_,print,clone"`, true, "_", "print", "clone"),
+			f("Name", "bool", "true", `gerror:"_,clone"`, true, "_", "clone")}},
+		{Name: "H8", Fields: []field{
+			f("Source", "string", `""`, `gerror:"origin,print,clone"`, true, "origin", "print", "clone"),
+			f("Name", "string", `""`, `gerror:"_,clone"`, true, "_", "clone"),
+			f("Message", "string", `"field-message"`, `gerror:"_,print"`, true, "_", "print")}},
 		{Name: "G3", Fields: []field{ // a print name is text, not a format
 			f("A", "int", "3", `gerror:"pct%d,print,clone"`, true, "pct%d", "print", "clone"),
 			f("B", "string", `"bee"`, `gerror:"50%,print,clone"`, true, "50%", "print", "clone")}},
